@@ -957,21 +957,29 @@ func TestC12_R_PositionedReadsAroundMissingUnsizedChild(t *testing.T) {
 	for _, nested := range []bool{false, true} {
 		var leaves []*mnode
 		var data []byte
-		for i := 0; i < 6; i++ {
+		for i := 0; i < 12; i++ {
 			c := lcgBytes(3+i%3, byte(i+1), 0)
 			data = append(data, c...)
 			leaves = append(leaves, &mnode{HasData: true, UFS: &ufsFields{Type: 2, HasData: true, Data: c, FileSize: u64p(uint64(len(c)))}})
 		}
+		// (Tsize: the cumulative size of what the link points to, as writers record it: a little more than the content)
+		cum := map[*mnode]int64{}
+		for _, l := range leaves {
+			cum[l] = int64(len(l.UFS.Data)) + 10
+		}
 		wrap := func(kids []*mnode) *mnode {
 			m := &mnode{HasData: true, UFS: &ufsFields{Type: 2}}
+			tot := int64(8)
 			for _, k := range kids {
-				m.Links = append(m.Links, mlink{Tsize: i64p(60), Child: k}) // (Tsize: the cumulative size, as writers record it)
+				m.Links = append(m.Links, mlink{Tsize: i64p(cum[k]), Child: k})
+				tot += cum[k] + 44
 			}
+			cum[m] = tot
 			return m
 		}
 		root := wrap(leaves)
 		if nested {
-			root = wrap([]*mnode{wrap(leaves[:3]), wrap(leaves[3:])})
+			root = wrap([]*mnode{wrap(leaves[:4]), wrap(leaves[4:8]), wrap(leaves[8:])})
 		}
 		st := NewStore()
 		ls := st.LinkSystem()
